@@ -23,3 +23,5 @@ CFG["rule"] += ' Added after independently written breaking changes: The schedul
 CFG["rule"] += ' Callback points with two callers: Stop (or Entries) is already waiting for the scheduler when Remove is called from a third goroutine; a Remove that returns inside the wake-up is judged like any returned Remove.'
 CFG["rule"] += ' TestCronLoggerPoints: the scheduler\'s "stop" report as a schedule point (wait for Stop to return, restart through Start or Run, then the next Stop must hold). TestCronChainsPerEntry: WithChain(Recover / DelayIfStillRunning / SkipIfStillRunning) with jobs that run until released, per-entry model (non-trivial: an entry started while another entry\'s job runs). Callback points with Entries and Stop both waiting: both return.'
 CFG["rule"] += ' TestCronParallelSchedule: 8 goroutines add entries at once (stopped and running cron): all ids differ, Entries lists all, removing one leaves the others started.'
+CFG["rule"] += ' TestCronPanicUnderChain: WithChain(Recover outermost, alone or with DelayIfStillRunning / SkipIfStillRunning inside), 1..3 entries (Every / "@every Ns" / "*/N * * * * *") whose jobs return at once and panic on drawn activations (always one panic that is followed by a later activation): after every virtual second each entry has one start per activation that was due, also after a recovered panic, and the context returned by Stop is done (only accepted deviation, recorded as a class: SkipIfStillRunning keeps its token when the job panics, so Recover+Skip skips the activations after a panic).'
+CFG["rule"] += ' Since fix 1af4e5c (SkipIfStillRunning hands its token back when the job panics) no deviation is accepted under Recover+Skip either.'
